@@ -20,6 +20,11 @@ with the engine's qfrc_spring / qfrc_damper / qfrc_gravcomp / qfrc_passive by ch
 * `gravcomp_cancels_fraction`, `gravcomp_full_cancels`: the force applied at the body COM is −gravcomp·mass·gravity,
   so through any Jacobian column it contributes −gravcomp times what gravity contributes; gravcomp = 1 cancels
   gravity on that body exactly.
+* `flgGravcomp_iff`, `gravcomp_gate_exact`, `no_gravcomp_only_if_zero`, `gravcomp_gate_open`: the tests that decide
+  whether gravity compensation is computed at all (the model constant flg_gravcomp derived by setFixed, the entry test
+  and body skip of mj_gravcomp, has_gravcomp in mj_passive) are exact — every body receives −gravcomp·mass·gravity,
+  for non-negative coefficients (`negative_gravcomp_dropped` shows the hypothesis is needed); `gated_enabled`,
+  `switches_remove_only_their_term`: what mjDSBL_SPRING / mjDSBL_DAMPER switch off.
 * `rest_zero_passive`: zero velocity, every spring at its reference, every tendon inside its deadband ⇒ spring,
   damper and summed passive force are zero.
 -/
@@ -303,6 +308,201 @@ theorem gravcomp_full_cancels (g : ℝ × ℝ × ℝ) (mass : ℝ) :
     let f := gravcompForce g mass 1
     f.1 + mass * g.1 = 0 ∧ f.2.1 + mass * g.2.1 = 0 ∧ f.2.2 + mass * g.2.2 = 0 := by
   simp only [gravcompForce]; refine ⟨?_, ?_, ?_⟩ <;> ring
+
+/-! ### gating: the tests that decide whether a term is computed never drop a non-zero force
+
+`setFixed` derives `flg_gravcomp` from `body_gravcomp` (`ngravcomp`, `flgGravcomp`), `mj_gravcomp` tests it together with
+the gravity switch and `|gravity| == 0` (`gravcompEntry`), skips bodies with `gravcomp == 0` and reports `has_gravcomp`
+(`gravcompStage`), which decides whether `mj_passive` adds `qfrc_gravcomp` to `qfrc_passive`.  The theorems say these
+shortcuts are exact: what each body receives is always the law `-gravcomp·mass·gravity`. -/
+
+theorem ngravcomp_pos_iff (gc : List ℝ) : 0 < ngravcomp gc ↔ ∃ c ∈ gc, 0 < c := by
+  unfold ngravcomp
+  rw [List.length_pos_iff_exists_mem]
+  constructor
+  · rintro ⟨c, hc⟩
+    rw [List.mem_filter] at hc
+    exact ⟨c, hc.1, by simpa [real_lt_iff] using hc.2⟩
+  · rintro ⟨c, hc, hpos⟩
+    exact ⟨c, List.mem_filter.2 ⟨hc, by simpa [real_lt_iff] using hpos⟩⟩
+
+/-- the model constant `flg_gravcomp` is set exactly when some body (jointed or not, any depth) has gravcomp > 0 -/
+theorem flgGravcomp_iff (gc : List ℝ) : flgGravcomp gc = true ↔ ∃ c ∈ gc, 0 < c := by
+  unfold flgGravcomp
+  rw [decide_eq_true_iff]
+  exact ngravcomp_pos_iff gc
+
+/-- `ngravcomp` counts every body with gravcomp > 0: inserting one more such body (anywhere) adds one -/
+theorem ngravcomp_cons (c : ℝ) (gc : List ℝ) : ngravcomp (c :: gc) = ngravcomp gc + (if 0 < c then 1 else 0) := by
+  unfold ngravcomp
+  by_cases h : 0 < c
+  · have h' : (decide (MjNum.ofInt 0 < c)) = true := by simpa [real_lt_iff] using h
+    simp [h]
+  · have h' : (decide (MjNum.ofInt 0 < c)) = false := by simpa [real_lt_iff] using h
+    simp [h]
+
+theorem norm3_eq_zero_iff (a b c : ℝ) : mju_norm3 a b c = 0 ↔ a = 0 ∧ b = 0 ∧ c = 0 := by
+  simp only [mju_norm3, real_sqrt]
+  rw [Real.sqrt_eq_zero']
+  constructor
+  · intro h
+    have ha : a * a = 0 := by nlinarith [mul_self_nonneg a, mul_self_nonneg b, mul_self_nonneg c]
+    have hb : b * b = 0 := by nlinarith [mul_self_nonneg a, mul_self_nonneg b, mul_self_nonneg c]
+    have hc : c * c = 0 := by nlinarith [mul_self_nonneg a, mul_self_nonneg b, mul_self_nonneg c]
+    exact ⟨mul_self_eq_zero.1 ha, mul_self_eq_zero.1 hb, mul_self_eq_zero.1 hc⟩
+  · rintro ⟨rfl, rfl, rfl⟩; simp
+
+theorem gravcompForce_zero_gc (g : ℝ × ℝ × ℝ) (mass : ℝ) : gravcompForce g mass 0 = (0, 0, 0) := by
+  simp [gravcompForce]
+
+theorem gravcompForce_zero_gravity (mass gc : ℝ) : gravcompForce ((0, 0, 0) : ℝ × ℝ × ℝ) mass gc = (0, 0, 0) := by
+  simp [gravcompForce]
+
+/-- when the entry test of `mj_gravcomp` fails (gravity switch on), no body has a non-zero compensation force
+    (non-negative gravcomp coefficients, `flg_gravcomp` as `setFixed` computes it) -/
+theorem gravcomp_entry_closed_zero (g : ℝ × ℝ × ℝ) (bodies : List (ℝ × ℝ)) (hnn : ∀ b ∈ bodies, 0 ≤ b.2)
+    (hclosed : gravcompEntry (flgGravcomp (bodies.map (fun b => b.2))) false g = false) :
+    ∀ b ∈ bodies, gravcompForce g b.1 b.2 = (0, 0, 0) := by
+  intro b hb
+  unfold gravcompEntry at hclosed
+  by_cases hf : flgGravcomp (bodies.map (fun b => b.2)) = true
+  · -- the flag is set, so the norm of gravity is zero
+    have hn : mju_norm3 g.1 g.2.1 g.2.2 = 0 := by
+      simpa [hf] using hclosed
+    obtain ⟨h1, h2, h3⟩ := (norm3_eq_zero_iff _ _ _).1 hn
+    have hg : g = (0, 0, 0) := Prod.ext h1 (Prod.ext h2 h3)
+    rw [hg]; exact gravcompForce_zero_gravity _ _
+  · -- the flag is clear: no body has gravcomp > 0
+    have hnone : ¬ ∃ c ∈ bodies.map (fun b => b.2), 0 < c := fun h => hf ((flgGravcomp_iff _).2 h)
+    have hle : b.2 ≤ 0 := by
+      by_contra hpos
+      exact hnone ⟨b.2, List.mem_map.2 ⟨b, hb, rfl⟩, not_le.1 hpos⟩
+    have h0 : b.2 = 0 := le_antisymm hle (hnn b hb)
+    rw [h0]; exact gravcompForce_zero_gc _ _
+
+/-- **the gates of gravity compensation are exact**: with the gravity switch on and non-negative coefficients, every
+    body 1.. receives exactly `-gravcomp·mass·gravity`, whether `mj_gravcomp` ran its loop, skipped the body
+    (`gravcomp == 0`) or returned at its entry test (`flg_gravcomp` clear or `|gravity| == 0`) -/
+theorem gravcomp_gate_exact (g : ℝ × ℝ × ℝ) (bodies : List (ℝ × ℝ)) (hnn : ∀ b ∈ bodies, 0 ≤ b.2) :
+    (gravcompStage (flgGravcomp (bodies.map (fun b => b.2))) false g bodies).2.map appliedForce =
+      (bodies.drop 1).map (fun b => gravcompForce g b.1 b.2) := by
+  unfold gravcompStage
+  split
+  · simp only [List.map_map]
+    apply List.map_congr_left
+    intro b _
+    simp only [Function.comp, gravcompBody, real_beq, real_ofInt]
+    by_cases h0 : b.2 = 0
+    · simp [h0, appliedForce, gravcompForce]
+    · simp [h0, appliedForce]
+  · next hclosed =>
+    have hz := gravcomp_entry_closed_zero g bodies hnn (by simpa using hclosed)
+    simp only [List.map_map]
+    apply List.map_congr_left
+    intro b hb
+    simp only [Function.comp, appliedForce, real_ofInt]
+    rw [hz b (List.mem_of_mem_drop hb)]
+    simp
+
+/-- `has_gravcomp = 0` (mj_passive then leaves `qfrc_gravcomp` out of `qfrc_passive`) only when every compensation
+    force is zero -/
+theorem no_gravcomp_only_if_zero (g : ℝ × ℝ × ℝ) (bodies : List (ℝ × ℝ)) (hnn : ∀ b ∈ bodies, 0 ≤ b.2)
+    (hno : (gravcompStage (flgGravcomp (bodies.map (fun b => b.2))) false g bodies).1 = false) :
+    ∀ b ∈ bodies.drop 1, gravcompForce g b.1 b.2 = (0, 0, 0) := by
+  intro b hb
+  unfold gravcompStage at hno
+  split at hno
+  · simp only [List.any_map, List.any_eq_false] at hno
+    have := hno b hb
+    simp only [Function.comp, gravcompBody, real_beq, real_ofInt] at this
+    by_cases h0 : b.2 = 0
+    · rw [h0]; exact gravcompForce_zero_gc _ _
+    · simp [h0] at this
+  · next hclosed =>
+    exact gravcomp_entry_closed_zero g bodies hnn (by simpa using hclosed) b (List.mem_of_mem_drop hb)
+
+/-- non-vacuity of the hypotheses of the three theorems above: a jointless payload (mass 1, gravcomp 0.5) next to an
+    uncompensated body; in the last two the entry test is closed because gravity is zero -/
+example : (gravcompStage (flgGravcomp ([(0, 0), (2, 0), (1, 0.5)].map (fun b : ℝ × ℝ => b.2))) false
+      ((0, 0, -9.81) : ℝ × ℝ × ℝ) [(0, 0), (2, 0), (1, 0.5)]).2.map appliedForce =
+    ([(0, 0), (2, 0), (1, 0.5)].drop 1).map (fun b : ℝ × ℝ => gravcompForce ((0, 0, -9.81) : ℝ × ℝ × ℝ) b.1 b.2) :=
+  gravcomp_gate_exact _ _ (by
+    intro b hb
+    simp only [List.mem_cons, List.not_mem_nil, or_false] at hb
+    rcases hb with rfl | rfl | rfl <;> norm_num)
+
+example : ∀ b ∈ ([(0, 0), (1, 0.5)] : List (ℝ × ℝ)).drop 1, gravcompForce ((0, 0, 0) : ℝ × ℝ × ℝ) b.1 b.2 = (0, 0, 0) :=
+  no_gravcomp_only_if_zero _ _ (by
+    intro b hb
+    simp only [List.mem_cons, List.not_mem_nil, or_false] at hb
+    rcases hb with rfl | rfl <;> norm_num) (by simp [gravcompStage, gravcompEntry, mju_norm3])
+
+example : ∀ b ∈ ([(0, 0), (1, 0.5)] : List (ℝ × ℝ)), gravcompForce ((0, 0, 0) : ℝ × ℝ × ℝ) b.1 b.2 = (0, 0, 0) :=
+  gravcomp_entry_closed_zero _ _ (by
+    intro b hb
+    simp only [List.mem_cons, List.not_mem_nil, or_false] at hb
+    rcases hb with rfl | rfl <;> norm_num) (by simp [gravcompEntry, mju_norm3])
+
+/-- a body (other than the world) with positive gravcomp under non-zero enabled gravity always opens the gates:
+    `flg_gravcomp` is set, the entry test passes and `has_gravcomp = 1` — independently of whether that body owns
+    joints, of its depth in the tree and of the other bodies -/
+theorem gravcomp_gate_open (g : ℝ × ℝ × ℝ) (bodies : List (ℝ × ℝ)) (b : ℝ × ℝ) (hb : b ∈ bodies.drop 1)
+    (hpos : 0 < b.2) (hg : g ≠ (0, 0, 0)) :
+    (gravcompStage (flgGravcomp (bodies.map (fun b => b.2))) false g bodies).1 = true := by
+  have hf : flgGravcomp (bodies.map (fun b => b.2)) = true :=
+    (flgGravcomp_iff _).2 ⟨b.2, List.mem_map.2 ⟨b, List.mem_of_mem_drop hb, rfl⟩, hpos⟩
+  have hn : mju_norm3 g.1 g.2.1 g.2.2 ≠ 0 := by
+    intro h
+    obtain ⟨h1, h2, h3⟩ := (norm3_eq_zero_iff _ _ _).1 h
+    exact hg (Prod.ext h1 (Prod.ext h2 h3))
+  have he : gravcompEntry (flgGravcomp (bodies.map (fun b => b.2))) false g = true := by
+    simp [gravcompEntry, hf, hn]
+  unfold gravcompStage
+  rw [if_pos he]
+  simp only [List.any_map, List.any_eq_true]
+  refine ⟨b, hb, ?_⟩
+  simp [Function.comp, gravcompBody, ne_of_gt hpos]
+
+example : (gravcompStage (flgGravcomp ([(0, 0), (2, 0), (1, 0.5)].map (fun b : ℝ × ℝ => b.2))) false
+    ((0, 0, -9.81) : ℝ × ℝ × ℝ) [(0, 0), (2, 0), (1, 0.5)]).1 = true :=
+  gravcomp_gate_open _ _ (1, 0.5) (by simp) (by norm_num) (by norm_num)
+
+/-- the hypothesis `0 ≤ gravcomp` matters: `setFixed` counts `gravcomp > 0` while the body loop tests `gravcomp != 0`,
+    so a model whose only compensated bodies have a NEGATIVE coefficient gets no force at all (the compiler accepts
+    negative gravcomp; recorded by checks/c29.py as a finding) -/
+theorem negative_gravcomp_dropped :
+    gravcompStage (flgGravcomp ([0, -1] : List ℝ)) false ((0, 0, -1) : ℝ × ℝ × ℝ) [(0, 0), (1, -1)] = (false, [none]) ∧
+    gravcompForce ((0, 0, -1) : ℝ × ℝ × ℝ) 1 (-1) ≠ (0, 0, 0) := by
+  constructor
+  · have hf : flgGravcomp ([0, -1] : List ℝ) = false := by
+      rw [Bool.eq_false_iff, Ne, flgGravcomp_iff]
+      rintro ⟨c, hc, hpos⟩
+      simp only [List.mem_cons, List.not_mem_nil, or_false] at hc
+      rcases hc with rfl | rfl <;> norm_num at hpos
+    rw [hf]
+    simp [gravcompStage, gravcompEntry]
+  · simp [gravcompForce]
+
+/-- with no switch set the gated definitions are the plain ones (to which the law theorems above apply) -/
+theorem gated_enabled (k p0 p1 q qs b d0 d1 v l lo hi s d : ℝ) (gcv : Option ℝ) :
+    jointSpringGated false false k p0 p1 q qs = jointSpring k p0 p1 q qs ∧
+    dofDamperGated false false b d0 d1 v = dofDamper b d0 d1 v ∧
+    tendonForcesGated false false k p0 p1 b d0 d1 l lo hi v = tendonForces k p0 p1 b d0 d1 l lo hi v ∧
+    passiveSumGated false false s d gcv = passiveSum s d gcv := by
+  refine ⟨?_, ?_, ?_, ?_⟩
+  · simp [jointSpringGated, springOn, passiveEntry]
+  · simp [dofDamperGated, damperOn, passiveEntry]
+  · simp [tendonForcesGated, tendonForces, passiveEntry, allZero, Bool.and_assoc]
+  · simp [passiveSumGated, passiveEntry]
+
+/-- mjDSBL_SPRING alone removes the joint and tendon spring terms and nothing else; mjDSBL_DAMPER alone the damper
+    terms; both together everything (documented: "when both flags are set, all passive forces are disabled") -/
+theorem switches_remove_only_their_term (k p0 p1 q qs b d0 d1 v s d : ℝ) (gcv : Option ℝ) :
+    jointSpringGated true false k p0 p1 q qs = 0 ∧ dofDamperGated true false b d0 d1 v = dofDamper b d0 d1 v ∧
+    jointSpringGated false true k p0 p1 q qs = jointSpring k p0 p1 q qs ∧ dofDamperGated false true b d0 d1 v = 0 ∧
+    passiveSumGated true false s d gcv = passiveSum s d gcv ∧ passiveSumGated false true s d gcv = passiveSum s d gcv ∧
+    passiveSumGated true true s d gcv = 0 := by
+  simp [jointSpringGated, dofDamperGated, passiveSumGated, springOn, damperOn, passiveEntry]
 
 /-! ### rest -/
 
